@@ -60,6 +60,10 @@ func runC19(e *Env) {
 	r.Rule("C19.P6", "absint", "EncodeBlockOption returns num[19:0]‖more‖szx[2:0], upper byte 0, no wrap", 2)
 	r.Rule("C19.P7", "tables", "szxToSize = {k↦2^(k+4), 7↦1024}; written only at init; SZX.Size returns the table entry", 3)
 	r.Rule("C19.P8", "absint+flows", "bufferSize: table size below BERT; ⌊max/1024⌋·1024 for BERT", 3)
+	r.Rule("C19.P9", "absint+bounds", "the 24-bit option value travels as its 0–3 byte minimal big-endian form (message.EncodeUint32 / DecodeUint32 are mutually inverse per length class)", 5)
+	if e.want("C19.P9") {
+		uintCodecClasses(e, "C19.P9")
+	}
 
 	dec := e.fn("C19.P1", "net/blockwise.DecodeBlockOption")
 	enc := e.fn("C19.P4", "net/blockwise.EncodeBlockOption")
